@@ -648,6 +648,9 @@ def m_raw_storage_remove(it, st, args, info):
 EXACT['cosmwasm_std::Storage::set'] = m_raw_storage_set
 EXACT['cosmwasm_std::Storage::remove'] = m_raw_storage_remove
 
+HANDWRITTEN_SENSITIVE = {'std::cmp::PartialEq::eq', 'std::cmp::PartialEq::ne', 'std::cmp::PartialOrd::lt', 'std::cmp::PartialOrd::gt', 'std::cmp::PartialOrd::le',
+                         'std::cmp::PartialOrd::ge', 'std::cmp::Ord::cmp', 'std::clone::Clone::clone', 'std::borrow::ToOwned::to_owned', 'std::ops::Not::not'}
+
 # storage API present in cw_storage_plus but not used today: any other Map/Item method is reported
 STORAGE_PREFIX = ('cw_storage_plus::',)
 
@@ -657,10 +660,30 @@ def lookup(it, info):
     fn = info['fn']
     res = fn.get('res')
     # crate-local impls of comparison traits are never inlined; local Clone/ToOwned are transparent
+    # default `ne` of a hand-written `eq`: inline eq and negate
+    if orig == 'std::cmp::PartialEq::ne' and not (res and res.get('local')):
+        st_ = (info.get('self_ty') or '').lstrip('&')
+        impl = it.p.impls.get('<%s as std::cmp::PartialEq>' % st_)
+        if impl and 'eq' in impl and impl['eq'].get('auto_derived') is False and 'ne' not in impl:
+            eqb = impl['eq']
+            def ne_via_eq(it_, st, args, info_):
+                return [(s, mk_not(strip_named(r))) for s, r in it_.inline(st, eqb, list(args), (), info_['site'])]
+            return ne_via_eq
+    # ordering through a hand-written partial_cmp / cmp on a crate-local type: not structural -> opaque predicate
+    if orig in ('std::cmp::PartialOrd::lt', 'std::cmp::PartialOrd::gt', 'std::cmp::PartialOrd::le', 'std::cmp::PartialOrd::ge') and not (res and res.get('local')):
+        st_ = (info.get('self_ty') or '').lstrip('&')
+        impl = it.p.impls.get('<%s as std::cmp::PartialOrd>' % st_)
+        if impl and any(b.get('auto_derived') is False for b in impl.values()):
+            return m_pure
     if orig in EXACT:
         # local impls: From/Into are inlined (see m_into / m_from); Not etc. cannot be local on foreign types
         if orig in ('std::convert::From::from',) and res and res.get('local'):
             return None
+        # comparison / clone traits: derived impls are structural (modelled); a HAND-WRITTEN crate-local impl is inlined instead
+        if orig in HANDWRITTEN_SENSITIVE and res and res.get('local'):
+            body = it.p.bodies.get(res['def'])
+            if body is not None and body.get('auto_derived') is False:
+                return None
         if orig == 'std::string::ToString::to_string': pass
         return EXACT[orig]
     if name in EXACT: return EXACT[name]
